@@ -623,6 +623,12 @@ func c18StatusGate(c *core.Ctx) {
 							gated = true
 						}
 					}
+					// slices.Contains(<accepted statuses>, resp.StatusCode) holds
+					if call, isCall := cd.V.(*ssa.Call); isCall && cd.Pos && facts.CalleeName(&call.Call) == "slices.Contains" && len(call.Call.Args) == 2 {
+						if _, fld, isF := facts.FieldOf(facts.Resolve(call.Call.Args[1])); isF && fld == "StatusCode" {
+							gated = true
+						}
+					}
 				}
 				c.Check(gated, "C18.R3", "client.do/status-gate", r.Pos(), "a response is returned only under an explicit status equality", "client.do returns a response as success on a path where its status was not compared with an accepted status")
 			}
